@@ -141,6 +141,7 @@ type sysEnv struct {
 	cancel  context.CancelFunc
 	garbage *garbageServer
 	flaky   atomic.Int64
+	late    time.Duration // a reply later than qto+late is judged
 	small   bool   // tiny concurrency limits
 	kind    string // n: ample limits, i: tiny ingress pool, r: tiny resolver limits
 	qto     time.Duration
@@ -319,11 +320,36 @@ func otherQuestion(req *dns.Msg) *dns.Msg {
 
 // newSysEnv builds world + server. small selects tiny concurrency limits.
 func newSysEnv(kind string, dedupTimeout time.Duration) *sysEnv {
-	small := kind != "n"
+	small := kind != "n" && kind != "c"
 	e := &sysEnv{small: small, kind: kind, probe: &probe{inline: map[string]int{}, replay: map[string]int{}, plain: map[string]int{}}}
 	e.qto = sysQueryTimeout
 	e.uto = sysUpstreamTimeout
+	e.late = lateMargin
+	if kind == "c" { // long upstream timeout: an all-servers-failed lookup ends late in the request's budget
+		e.uto = 450 * time.Millisecond
+		e.qto = 2 * time.Second
+		e.late = 500 * time.Millisecond
+	}
 	e.w = l3.NewWorld(false)
+	// root priming shapes: n — one root, no glue in the priming answer; r — two configured roots, the
+	// priming answer carries an address for only one of them (partial glue); z — two roots, full glue
+	var root2 *l3.Server
+	if kind == "r" || kind == "z" {
+		root2 = e.w.AddServer(".")
+		ip1, ip2 := e.w.Root.Servers[0].IP, root2.IP
+		glue := func(q dns.Question, m *dns.Msg, _ bool) *dns.Msg {
+			if q.Name == "." && q.Qtype == dns.TypeNS && m != nil {
+				m.Extra = append([]dns.RR{&dns.A{Hdr: dns.RR_Header{Name: "ns2.root-servers.test.", Rrtype: dns.TypeA, Class: dns.ClassINET, Ttl: 3600}, A: ip2}}, m.Extra...)
+				if kind == "z" {
+					m.Extra = append([]dns.RR{&dns.A{Hdr: dns.RR_Header{Name: "ns.root-servers.test.", Rrtype: dns.TypeA, Class: dns.ClassINET, Ttl: 3600}, A: ip1}}, m.Extra...)
+				}
+			}
+			return m
+		}
+		for _, s := range e.w.Root.Servers {
+			s.SetBehaviour(l3.Behaviour{Tamper: glue})
+		}
+	}
 	e.w.AddZone("test.", l3.ZoneOpts{})
 	// cold zones: healthy, never asked before, delegated WITHOUT glue to a
 	// name server whose address lives in the slow zone nsz.test.: requests for
@@ -352,13 +378,30 @@ func newSysEnv(kind string, dedupTimeout time.Duration) *sysEnv {
 		z.Add("*."+f+".test. 60 IN A "+zoneAddr, "*."+f+".test. 60 IN TXT \"t\"")
 		nsz2.Add(host + " 60 IN A " + z.Servers[0].IP.String())
 	}
-	// silent zones nobody asked yet: the resolver's "all servers failed five times" re-check of a
-	// zone's name-server hosts (checkHosts) fires once per delegation, so each use needs a fresh one
+	// silent zones nobody asked yet, delegated WITHOUT glue to a name server whose address lives in
+	// nsq.test.; that zone answers the first address query for a host at once and every later one only
+	// after 1.5 s. The resolver's "all servers failed five times" re-check of a zone's name-server hosts
+	// (checkHosts) fires once per delegation, so each use needs a fresh zone.
+	nsq := e.w.AddZone("nsq.test.", l3.ZoneOpts{})
+	var nsqMu sync.Mutex
+	nsqSeen := map[string]int{}
+	nsq.Servers[0].SetBehaviour(l3.Behaviour{Delay: func(q dns.Question, _ bool) time.Duration {
+		nsqMu.Lock()
+		defer nsqMu.Unlock()
+		k := strings.ToLower(q.Name)
+		nsqSeen[k]++
+		if strings.HasPrefix(k, "cnsq") && nsqSeen[k] > 1 {
+			return 1500 * time.Millisecond
+		}
+		return 0
+	}})
 	for i := 1; i <= silentZones; i++ {
 		f := fmt.Sprintf("sil%d", i)
-		z := e.w.AddZone(f+".test.", l3.ZoneOpts{})
+		host := fmt.Sprintf("cnsq%d.nsq.test.", i)
+		z := e.w.AddZone(f+".test.", l3.ZoneOpts{NSHosts: []string{host}, NoGlue: true})
 		z.Add("*." + f + ".test. 60 IN A " + zoneAddr)
 		z.Servers[0].SetBehaviour(l3.Behaviour{Drop: func(dns.Question, bool) bool { return true }})
+		nsq.Add(host + " 60 IN A " + z.Servers[0].IP.String())
 	}
 	for _, f := range faults {
 		z := e.w.AddZone(f+".test.", l3.ZoneOpts{})
@@ -436,6 +479,9 @@ func newSysEnv(kind string, dedupTimeout time.Duration) *sysEnv {
 	_ = os.MkdirAll(e.dir, 0o750)
 	cfg := new(config.Config)
 	cfg.RootServers = []string{net.JoinHostPort(e.w.Root.Servers[0].IP.String(), "53")}
+	if root2 != nil {
+		cfg.RootServers = append(cfg.RootServers, net.JoinHostPort(root2.IP.String(), "53"))
+	}
 	cfg.IPv6Access = false
 	cfg.Maxdepth = 30
 	cfg.Expire = 600
@@ -1147,7 +1193,7 @@ func (e *sysEnv) judge(gs []*group) verdict {
 			}
 			// a reply that takes a whole extra timeout (the pipehalf stall is the documented
 			// 2 s tcpQueryWait hold, see notes "Noticed"; pipelined frames are served serially)
-			if r.at > e.qto+lateMargin && kind != "pipeh" && kind != "pipe" {
+			if r.at > e.qto+e.late && kind != "pipeh" && kind != "pipe" {
 				fail("sys/late-reply/"+kind, fmt.Sprintf("%s name=%s after=%s budget=%s", where, c.name, r.at.Round(time.Millisecond), e.qto))
 			}
 			if c.other > 0 {
@@ -1229,7 +1275,7 @@ func execSys(f []string) vlib.Res {
 			return vlib.Res{Impl: "bad-op"}
 		}
 		closeAll()
-		if f[2] != "n" && f[2] != "i" && f[2] != "r" && f[2] != "z" {
+		if f[2] != "n" && f[2] != "i" && f[2] != "r" && f[2] != "z" && f[2] != "c" {
 			return vlib.Res{Impl: "bad-op"}
 		}
 		env = newSysEnv(f[2], time.Duration(vlib.Atoi(f[3]))*time.Millisecond)
@@ -1444,6 +1490,50 @@ func execSys(f []string) vlib.Res {
 			or = fmt.Sprintf("FAIL sig=sys/drain/goroutine-leak base=%d now=%d", e.baseG, g)
 		}
 		return vlib.Res{Impl: "drained", Oracle: or, Tags: fmt.Sprintf("nt,quiesce_ms=%d,g=%d,baseg=%d,gall=%d,maxlat_ms=%d", qd.Milliseconds(), g, e.baseG, all, e.maxLat.Milliseconds())}
+	case "fifth": // sys fifth <rounds>: one lookup after the other against a fresh silent zone, the cached
+		// zone failure expired in between (sys shift), so that every lookup really goes out and fails with
+		// "all servers failed"; the fifth makes the resolver re-check the zone's name-server hosts
+		// (checkHosts), whose address now has to be fetched from a slow zone. Every reply — the fifth
+		// included — must arrive within the request's own budget.
+		if env == nil || len(f) != 3 {
+			return vlib.Res{Impl: "bad-op"}
+		}
+		e := env
+		rounds := vlib.Atoi(f[2])
+		var lat []string
+		or := "ok"
+		for attempt := 0; attempt < 2; attempt++ {
+			if e.sil >= silentZones {
+				break
+			}
+			e.sil++
+			zone := fmt.Sprintf("sil%d", e.sil)
+			lat = lat[:0]
+			or = "ok"
+			noisy := false
+			for i := 0; i < rounds && or == "ok"; i++ {
+				e.serial++
+				c := e.mk("udp", zone, fmt.Sprintf("r%dx%d", i, e.serial), dns.TypeA)
+				stallReset()
+				e.runUDPUntilReply(c, e.qto+3*time.Second)
+				stall := time.Duration(stallMax.Load())
+				switch {
+				case len(c.replies) != 1:
+					or = fmt.Sprintf("FAIL sig=sys/fifth/no-reply round=%d zone=%s", i+1, zone)
+				case c.replies[0].at > e.qto+e.late:
+					or = fmt.Sprintf("FAIL sig=sys/late-reply/udp fifth round=%d zone=%s after=%s budget=%s", i+1, zone, c.replies[0].at.Round(time.Millisecond), e.qto)
+					noisy = stall >= 300*time.Millisecond
+				default:
+					lat = append(lat, fmt.Sprint(c.replies[0].at.Milliseconds()))
+				}
+				waitFor(2*time.Second, e.srv.Quiesced)
+				cache.VerifShift(e.cache, 70*time.Second)
+			}
+			if or == "ok" || !noisy {
+				break // a late reply while the process never stalled is not noise; else once more on a fresh zone
+			}
+		}
+		return vlib.Res{Impl: "done", Oracle: or, Tags: "nt,lat_ms=" + strings.Join(lat, "/")}
 	case "nsaddr": // sys nsaddr <first|last>: lookupV4Nss of a glue-less delegation with two NS hosts, the
 		// address lookup of the first / last sorted one shed by the zone limiter, the other failing ordinarily
 		if env == nil || len(f) != 3 {
